@@ -25,7 +25,7 @@ def gen_inputs(ctx):
     for k in range(0, n + 1):
         for p in itertools.product(sorted(set(INI_SIG)), repeat=k):
             s = bytes(p)
-            if k == n and quick and rng.random() < .75:
+            if k == n and rng.random() < (.75 if quick else .6):
                 continue
             ini.append(s)
             if k <= n - 1:
@@ -33,7 +33,7 @@ def gen_inputs(ctx):
     for k in range(0, n + 1):
         for p in itertools.product(sorted(set(AC_SIG)), repeat=k):
             s = bytes(p)
-            if k == n and quick and rng.random() < .75:
+            if k == n and rng.random() < (.75 if quick else .5):
                 continue
             ac.append(s)
     # grammar-aware mutation of valid documents (arbitrary length)
@@ -54,7 +54,7 @@ def gen_inputs(ctx):
     sl, _ = run_model(ctx, [enc_aconf_doc(*c) for c in cases])
     acm = []
     for c, l in zip(cases, sl):
-        t = unhex(l.split(' ')[0])
+        t = unhex(l.split(' ')[1])
         for _ in range(3):
             acm.append((c[0], c[2], mutate(rng, t, AC_SIG)))
     return ini, ac, acm
@@ -105,29 +105,31 @@ def run_conf(ctx, exe=None):
     ctx.sample({'conf-op': ops[len(ops) // 3][:200], 'impl': il[len(ops) // 3][:200] if len(il) > len(ops) // 3 else ''})
     # ---- failing-input search: sanitizer build and unoptimised build
     san_ops = ops if not quick else ops[:1] + [o for i, o in enumerate(ops[1:]) if i % 6 == 0 or len(o) > 200]
+    o0_ops = san_ops if quick else san_ops[:1] + [o for i, o in enumerate(san_ops[1:]) if i % 3 == 0 or len(o) > 200]
     for name, kw, envx in (('h_conf_asan', {'san': 'asan'}, {'ASAN_OPTIONS': 'detect_leaks=0:abort_on_error=0:allocator_may_return_null=1', 'QV_WATCHDOG': '20'}),
                            ('h_conf_O0', {'cflags': ['-O0']}, {'QV_WATCHDOG': '5'})):
         x, msg = build(ctx, name, **kw)
         if x is None:
             ctx.broken.append(('obligation:build-' + name, msg))
             continue
-        sl, deaths = run_ops(ctx, x, san_ops, env=envx)
-        ctx.cov['evaluations'] += len(san_ops)
-        ctx.count(name + '-ops', len(san_ops))
+        xops = san_ops if name == 'h_conf_asan' else o0_ops
+        sl, deaths = run_ops(ctx, x, xops, env=envx)
+        ctx.cov['evaluations'] += len(xops)
+        ctx.count(name + '-ops', len(xops))
         for idx, tail in deaths:
-            op = san_ops[idx]
+            op = xops[idx]
             kind = op.split(' ')[0]
             obs = 'overread' if 'buffer-overflow' in tail and 'READ' in tail else 'crash'
             m = re.search(r'(ERROR: AddressSanitizer: [^\n]*|runtime error: [^\n]*|SUMMARY: [^\n]*)', tail)
             ctx.report('impl-vs-spec', {'op': kind, 'observed': obs},
                        '%s parser: %s under %s' % ('INI-style' if kind == 'ini' else 'Apache-style', m.group(1) if m else 'process died', name),
-                       {'ops': [san_ops[0], op], 'build': name, 'stderr': tail[-800:]})
+                       {'ops': [xops[0], op], 'build': name, 'stderr': tail[-800:]})
         for k, l in enumerate(sl):
             if l in ('CRASH', 'TIMEOUT'):
-                op = san_ops[k]
+                op = xops[k]
                 kind = op.split(' ')[0]
                 ctx.report('impl-vs-spec', {'op': kind, 'observed': 'timeout' if l == 'TIMEOUT' else 'crash'},
-                           '%s parser: %s under %s' % ('INI-style' if kind == 'ini' else 'Apache-style', l, name), {'ops': [san_ops[0], op], 'build': name})
+                           '%s parser: %s under %s' % ('INI-style' if kind == 'ini' else 'Apache-style', l, name), {'ops': [xops[0], op], 'build': name})
     # ---- directed: deeply nested sections (stack use of the recursion: 4 KiB line buffer per level)
     deep = []
     for depth in (200, 1500, 2500, 6000):
